@@ -114,7 +114,7 @@ impl WalHandle {
                         );
 
                         #[cfg(sneldb_verif)]
-                        crate::verif::step("wal.appended", &format!("\"shard\":{shard_id},\"log\":{},\"entries\":{}", writer.current_log_id, writer.entries_written));
+                        crate::verif::step("wal.appended", &format!("\"shard\":{shard_id},\"log\":{},\"entries\":{},\"eid\":\"{}\"", writer.current_log_id, writer.entries_written, entry.event_id.raw()));
                         let capacity = CONFIG.engine.fill_factor * CONFIG.engine.event_per_zone;
                         if writer.entries_written >= capacity as u64 {
                             if let Err(err) = writer.rotate_log_file() {
